@@ -30,7 +30,7 @@ structure Verdict where
   agree : Bool
   implProj : String
   modelProj : String
-  viol : Option (String × String)   -- (property, clause)
+  viol : Option (String × String)   -- (property or `P1+P2+…`, clause)
   tags : List String
   malformed : Bool := false
 
